@@ -1,4 +1,22 @@
-"""Which legs (monitor runs, sanitizer runs, ...) make up each check."""
+"""Which legs (monitor runs, sanitizer runs, feature builds, ...) make up each check."""
+import os
+import json
+import subprocess
+import shutil
+
+FEATURE_SETS = []
+for counting in ([], ["adhoccounting"], ["adhoccounting", "adhoccountmodels"]):
+    for vl in ([], ["variablelist"]):
+        for fe in ([], ["frontend"]):
+            FEATURE_SETS.append(counting + vl + fe)
+
+
+def ftag(fs):
+    return "+".join(fs) if fs else "none"
+
+
+def memo_documented(fs):
+    return ("adhoccounting" not in fs) or ("adhoccountmodels" in fs)
 
 
 def setup(drv):
@@ -9,12 +27,13 @@ def run(pid, spec, tier, seed, merged, drv):
     if not spec.get("claimed", True):
         raise drv.Inconclusive("property %s is not claimed: %s" % (pid, spec.get("reason")))
     params = spec[tier] if tier in spec else spec["quick"]
+    if pid == "C12":
+        return c12(spec, tier, seed, merged, drv, params)
     binary = drv.build_mon()
     drv.mon_leg(merged, binary, pid, seed, tier, params)
 
 
 def replay(pid, spec, path, drv):
-    import subprocess
     binary = drv.build_mon()
     cmd = [binary, pid.lower(), "--replay", path]
     p = subprocess.run(cmd, stdout=subprocess.PIPE, text=True, env=drv.env_offline())
@@ -22,3 +41,91 @@ def replay(pid, spec, path, drv):
     if p.returncode == 1:
         print("VIOLATION property=%s replay=%s" % (pid, path))
     return p.returncode
+
+
+# ----------------------------------------------------------------------------- C12
+
+SUB_MONITORS = ["c01", "c02", "c03", "c04", "c05", "c06", "c07", "c11", "c13", "c14", "c18", "c20"]
+
+
+def run_probe(drv, binary, seed, cases, out):
+    rep_out = out + ".report.json"
+    cmd = [binary, "probe", "--seed", str(seed), "--cases", str(cases), "--probe_out", out, "--out", rep_out]
+    p = subprocess.run(cmd, stdout=subprocess.PIPE, stderr=subprocess.PIPE, text=True, env=drv.env_offline(), timeout=1800)
+    if p.returncode not in (0,) or not os.path.exists(out):
+        raise drv.Inconclusive("probe run failed (exit %s): %s" % (p.returncode, p.stderr[-400:]))
+    lines = open(out).read().split("\n")
+    return lines, json.load(open(rep_out))
+
+
+def c12(spec, tier, seed, merged, drv, params):
+    tmp = os.path.join(drv.CACHE, "run", "c12-%d" % os.getpid())
+    os.makedirs(tmp, exist_ok=True)
+    default = drv.build_mon()
+    probe_cases = params.get("probe_cases", 60)
+    dlines, drep = run_probe(drv, default, seed, probe_cases, os.path.join(tmp, "probe-default.txt"))
+    dmap = dict(l.split("\t", 1) for l in dlines if "\t" in l)
+    merged.add(drep, "probe[default]")
+    merged.legs.append("probe[default]")
+    # builds are sequential (one cargo target dir), runs are parallel
+    binaries = []
+    for fs in FEATURE_SETS:
+        binaries.append((fs, drv.build_mon(features=fs, tag=ftag(fs))))
+    merged.counters["feature_sets_built"] = len(binaries)
+    sub_cases = params.get("sub_cases", 60)
+    cmds = []
+    meta = []
+    env = drv.env_offline()
+    for fs, binary in binaries:
+        for m in SUB_MONITORS + (["c19"] if "frontend" in fs else []):
+            out = os.path.join(tmp, "%s-%s.json" % (ftag(fs), m))
+            cmd = [binary, m, "--seed", str(seed), "--shard", "0", "--cases", str(sub_cases), "--out", out]
+            if tier == "thorough":
+                cmd.append("--thorough")
+            cmds.append((cmd, out, env))
+            meta.append((fs, m))
+    res = drv.run_shards(cmds, params.get("timeout", 3000), "C12 sub-monitors")
+    for (fs, m), (rep, rc, note) in zip(meta, res):
+        leg = "features[%s].%s" % (ftag(fs), m)
+        if rep is None:
+            merged.inconclusive.append("%s: %s" % (leg, note))
+            continue
+        merged.add(rep, leg)
+    merged.legs.append("sub-monitors x %d feature sets" % len(binaries))
+    # probe transcripts
+    compared = 0
+    skipped = 0
+    for fs, binary in binaries:
+        out = os.path.join(tmp, "probe-%s.txt" % ftag(fs))
+        lines, rep = run_probe(drv, binary, seed, probe_cases, out)
+        fmap = dict(l.split("\t", 1) for l in lines if "\t" in l)
+        if set(fmap) != set(dmap):
+            merged.violations.append({"signature": "feature-set-changes-transcript-shape",
+                                      "message": "feature set [%s]: probe produced %d lines, default %d" % (ftag(fs), len(fmap), len(dmap)),
+                                      "replay": {"property": "c12", "features": fs, "seed": seed}, "leg": "probe"})
+            continue
+        for key, val in fmap.items():
+            if ".memo_models." in key:
+                # documented exception: compare with the default build's NAIVE answer, and only where memoisation is documented
+                if not memo_documented(fs):
+                    skipped += 1
+                    continue
+                # key layout: caseN.memo_models.<rest>  ->  caseN.<rest>
+                ref = dmap.get(key.replace("memo_models.", "", 1))
+            else:
+                ref = dmap.get(key)
+            compared += 1
+            if ref is None:
+                merged.inconclusive.append("probe key %s has no counterpart" % key)
+                break
+            if ref != val:
+                merged.violations.append({
+                    "signature": "feature-set-changes-answer:%s" % key.split(".")[-1],
+                    "message": "feature set [%s]: %s = %s but the default build answers %s" % (ftag(fs), key, val[:300], ref[:300]),
+                    "replay": {"property": "c12", "features": fs, "seed": seed, "key": key, "value": val[:2000], "default": ref[:2000]},
+                    "leg": "probe[%s]" % ftag(fs)})
+                break
+    merged.counters["probe_lines_compared"] = compared
+    merged.counters["probe_memo_lines_skipped_as_documented"] = skipped
+    merged.legs.append("probe x %d feature sets" % len(binaries))
+    shutil.rmtree(tmp, ignore_errors=True)
